@@ -319,6 +319,90 @@ def _random_case(seed):
     return out
 
 
+def _grid_lots_case(seed):
+    """Convex lots whose vertices lie on a 5 m grid with a spacing that divides it: rows pass exactly through lot vertices. Every tried
+    rotation must give boreholes at least the target spacing apart (no repeated borehole), and the optimiser returns the tried rotation
+    with the most boreholes."""
+    import_repo()
+    import numpy as np  # noqa: PLC0415
+    from scipy.spatial import cKDTree  # noqa: PLC0415
+
+    import ghedesigner.rowwise as rw  # noqa: PLC0415
+
+    rnd = random.Random(seed)
+    out = {"bad": [], "lots": 0, "timeouts": 0}
+    signal.signal(signal.SIGALRM, _alarm)
+    for _ in range(40):
+        n = rnd.randint(3, 6)
+        pts = None
+        for _try in range(20):
+            cand = [(5.0 * rnd.randint(0, 20), 5.0 * rnd.randint(0, 20)) for _ in range(n)]
+            cx, cy = sum(p[0] for p in cand) / n, sum(p[1] for p in cand) / n
+            cand.sort(key=lambda p: math.atan2(p[1] - cy, p[0] - cx))
+            if len(set(cand)) == n and is_convex(cand):
+                pts = cand
+                break
+        if pts is None:
+            continue
+        if rnd.random() < 0.5:
+            pts = pts[::-1]
+        spacing = rnd.choice([5.0, 10.0])
+        # true minimum width of the convex lot (smallest over the edges of the largest distance of a vertex from that edge's line)
+        width = min(max(abs((b[0] - a[0]) * (a[1] - v[1]) - (a[0] - v[0]) * (b[1] - a[1])) / math.hypot(b[0] - a[0], b[1] - a[1]) for v in pts)
+                    for a, b in zip(pts, pts[1:] + pts[:1]))
+        if width < 3.2 * spacing:
+            continue
+        log = []
+        realgen = rw.gen_borehole_config
+
+        def logged(*a, **kw):
+            r = realgen(*a, **kw)
+            arr = np.asarray(r, dtype=float).reshape(-1, 2)
+            mind, pair = float("inf"), None
+            if len(arr) > 1:
+                dd, ii = cKDTree(arr).query(arr, k=2)
+                j = int(np.argmin(dd[:, 1]))
+                mind, pair = float(dd[j, 1]), (tuple(arr[j]), tuple(arr[ii[j, 1]]))
+            log.append((kw.get("rotate", 0), len(r), mind, pair))
+            return r
+
+        desc = {"polygon": pts, "spacing": spacing, "rotate": (0.0, 90.0, 15.0)}
+        out["lots"] += 1
+        rw.gen_borehole_config = logged
+        signal.alarm(WATCHDOG_S * 6)
+        try:
+            with warnings.catch_warnings(), contextlib.redirect_stdout(io.StringIO()):
+                warnings.simplefilter("ignore")
+                pb, _ = rw.gen_shape([list(p) for p in pts], None)
+                field, name = rw.field_optimization_fr(spacing, 15.0, pb, ng_zones=None, rotate_start=0.0, rotate_stop=90.0 * math.pi / 180)
+        except Timeout:
+            out["timeouts"] += 1
+            out["bad"].append({"what": "RowWise field generation does not terminate (grid lot)", **desc})
+            continue
+        except Exception as ex:  # noqa: BLE001
+            out["bad"].append({"what": f"raised {type(ex).__name__}: {ex} (grid lot)", **desc})
+            continue
+        finally:
+            signal.alarm(0)
+            rw.gen_borehole_config = realgen
+        close = [(r, c, m, pq) for r, c, m, pq in log if m < spacing - 1e-6]
+        if close:
+            r, c, m, (p_, q_) = close[0]
+            # listed finding F29: a row that passes exactly through a lot vertex is cut there into two pieces, each piece gets its own
+            # boreholes and two of them end up closer than the spacing (never a repeated borehole: the pair is centimetres to metres apart)
+            through_vertex = m > 1e-6 and any(abs((q_[0] - p_[0]) * (p_[1] - v[1]) - (p_[0] - v[0]) * (q_[1] - p_[1])) / max(m, 1e-12) < 1e-6 for v in pts)
+            if through_vertex:
+                out["f29"] = out.get("f29", 0) + 1
+            else:
+                out["bad"].append({"what": f"rotation {r * 180 / math.pi:.1f} deg yields two boreholes {m:.3g} m apart (target spacing {spacing}; {c} boreholes)", **desc})
+            continue
+        f = np.asarray(field, dtype=float).reshape(-1, 2)
+        best = max(c for _, c, _, _ in log)
+        if len(f) != best:
+            out["bad"].append({"what": f"returned field has {len(f)} boreholes, the best tried rotation had {best}", **desc})
+    return out
+
+
 def _f20_reproduces():
     import_repo()
     import ghedesigner.rowwise as rw  # noqa: PLC0415
@@ -331,6 +415,25 @@ def _f20_reproduces():
         pb, ngs = rw.gen_shape(pts, ng)
         r = rw.gen_borehole_config(pb, 5.26, 5.26, no_go=ngs, rotate=-45.0 * math.pi / 180)
         return any(strictly_inside(ng[0], (float(p[0]), float(p[1]))) for p in r)
+    except Exception:  # noqa: BLE001
+        return False
+    finally:
+        signal.alarm(0)
+
+
+def _f29_reproduces():
+    import_repo()
+    import numpy as np  # noqa: PLC0415
+
+    import ghedesigner.rowwise as rw  # noqa: PLC0415
+
+    signal.signal(signal.SIGALRM, _alarm)
+    signal.alarm(WATCHDOG_S)
+    try:
+        pb, _ = rw.gen_shape([[0.0, 100.0], [40.0, 40.0], [40.0, 30.0]], None)
+        r = np.asarray(rw.gen_borehole_config(pb, 10.0, 10.0, rotate=0.0), dtype=float).reshape(-1, 2)
+        d = np.sqrt(((r[:, None, :] - r[None, :, :]) ** 2).sum(-1)) + np.eye(len(r)) * 1e9
+        return 1e-6 < float(d.min()) < 10.0 - 1e-6
     except Exception:  # noqa: BLE001
         return False
     finally:
@@ -378,6 +481,8 @@ def run() -> int:
     # the listed finding F20, on its recorded input (reported as KNOWN-FINDING while it reproduces)
     if _f20_reproduces():
         chk.violation("F20", None, known_key="F20")
+    if _f29_reproduces():
+        chk.violation("F29", None, known_key="F29")
     # random convex lots
     seeds = [chk.seed * 101 + i for i in range(16 if t == "quick" else 400)]
     runs = rot = to = 0
@@ -390,6 +495,17 @@ def run() -> int:
             chk.violation("F20", None, known_key="F20")
         for b in o["bad"][:2]:
             chk.violation(f"C14 random convex lot: {b['what']}", b)
+    glots = 0
+    gseeds = [chk.seed * 211 + i for i in range(16 if t == "quick" else 160)]
+    for o in parallel_map(_grid_lots_case, gseeds):
+        glots += o["lots"]
+        to += o["timeouts"]
+        for _ in range(o.get("f29", 0)):
+            chk.violation("F29", None, known_key="F29")
+        for b in o["bad"][:2]:
+            chk.violation(f"C14 grid lot: {b['what']}", b)
+    chk.note("grid_lots", glots)
+    chk.traces += glots
     chk.note("random_lots", runs)
     chk.note("rotations_tried", rot)
     chk.note("timeouts", to)
